@@ -484,12 +484,26 @@ def eval_host(ctx, label, host, families, rng, stream="gen", want_ref=True, chec
     except Exception as e:
         bad("result-does-not-run", f"{type(e).__name__}: {str(e)[:300]}")
     # -- progress
-    if check_progress and count == 0:
-        claim = [i for i in inst if i["claim"]]
-        if claim:
-            i = claim[0]
-            res.violations.append((f"C07:{stream}:no-progress:{i['family']}:{i['where']}",
-                                   f"a removable instance of {i['family']} exists in {i['level']} (root node {i['root']}) but no rule fired"))
+    if check_progress:
+        # per graph level: a level holding a removable instance must see at least one splice (the first such instance
+        # in iteration order is still intact when the iteration reaches it unless an earlier splice of that level touched it)
+        level_of = {}
+        for key, (_desc, g, _top) in enumerate(G.all_levels(host)):
+            for n in g.nodes:
+                for o in n.outs:
+                    level_of[o] = key
+        spliced = set()
+        for r in tracer.sweeps:
+            for sig_, _rm in r["matched_sigs"]:
+                for o in sig_[3]:
+                    if o in level_of:
+                        spliced.add(level_of[o])
+        for i in inst:
+            if i["claim"] and i["level_key"] not in spliced:
+                res.violations.append((f"C07:{stream}:no-progress:{i['family']}:{i['where']}",
+                                       f"a removable instance of {i['family']} exists in {i['level']} (root node {i['root']}) but no rule "
+                                       f"fired in that graph (fired elsewhere: {count})"))
+                break
     # -- model correspondence material
     for k, r in enumerate(tracer.sweeps):
         if r["unmodelled"]:
@@ -510,7 +524,7 @@ def reference_instances(host, families):
     out = []
     for fam in families:
         spec = G.FAMILIES[fam]
-        for desc, g, top in G.all_levels(host):
+        for level_key, (desc, g, top) in enumerate(G.all_levels(host)):
             in_function = desc.startswith("function:")
             consts = {}
             if top:
@@ -532,7 +546,7 @@ def reference_instances(host, families):
                 if spec["tr"] == "add0_init" and in_function:
                     claim = False                       # by design: rules adding initializers are skipped in functions
                 where = "function" if in_function else ("main" if desc == "main" else "nested")
-                out.append(dict(family=fam, level=desc, where=where, claim=claim, **i))
+                out.append(dict(family=fam, level=desc, level_key=level_key, where=where, claim=claim, **i))
     return out
 
 
@@ -709,10 +723,11 @@ def _h_all(g):
 
 # ---- bounded exhaustive: all hosts with <= k nodes over a small alphabet
 
-def small_hosts(max_nodes):
+def small_hosts(max_nodes, distinct_add=False):
     """Every straight-line host of 1..max_nodes nodes over {Abs, Neg, Add} whose operands are chosen among the two
     most recent values (and the input), every value live: enough to contain all contiguous, non-contiguous and
-    overlapping instances of the chain and swap patterns."""
+    overlapping instances of the chain and swap patterns.  distinct_add: the smaller alphabet used for the longest
+    hosts (operands among the two most recent values only, Add on two different values)."""
     ops = [("Abs", 1), ("Neg", 1), ("Add", 2)]
 
     def extend(nodes, vals):
@@ -721,9 +736,11 @@ def small_hosts(max_nodes):
             return
         for op, ar in ops:
             pool = vals[-2:] if len(vals) > 1 else vals
-            if "x0" not in pool:
+            if "x0" not in pool and not distinct_add:
                 pool = ["x0"] + pool
             for ins in itertools.product(pool, repeat=ar):
+                if distinct_add and ar == 2 and ins[0] == ins[1]:
+                    continue
                 out = f"v{len(nodes) + 1}"
                 yield from extend(nodes + [G.HNode(op, list(ins), [out])], vals + [out])
     for nodes in extend([], ["x0"]):
@@ -738,6 +755,9 @@ def stream_small(ctx, max_nodes, limit):
     all_cases, all_wf = [], []
     n = 0
     hosts = list(small_hosts(max_nodes))
+    if not limit:
+        seen = {tuple((x.op, tuple(x.ins)) for x in h) for h in hosts}
+        hosts += [h for h in small_hosts(max_nodes + 1, distinct_add=True) if tuple((x.op, tuple(x.ins)) for x in h) not in seen]
     if limit and len(hosts) > limit:
         rng.shuffle(hosts)
         hosts = hosts[:limit]
@@ -943,9 +963,9 @@ def run(ctx):
     ctx.check_props()
 
     quick = ctx.tier == "quick"
-    n_hosts = 308 if quick else 3080
+    n_hosts = 308 if quick else 2520
     cases, wf, meta, stats, hist, violated = stream_generated(ctx, n_hosts)
-    c2, w2, st2 = stream_small(ctx, 4 if quick else 5, 150 if quick else None)
+    c2, w2, st2 = stream_small(ctx, 4, 150 if quick else None)
     cases += c2
     wf += w2
     stream_targeted(ctx)
